@@ -15,6 +15,7 @@ import queue
 import gc
 
 from contextlib import contextmanager
+from hashlib import sha256
 from time import perf_counter, time
 
 from aionostr.event import Event, EventKind
@@ -39,6 +40,7 @@ from ..errors import StorageError
 # kind: b'\x02<4 bytes kind>\x00<32 bytes of id>'
 # author: b'\x03<32 bytes pubkey>\x00<32 bytes id>'
 # tag: b'\x09<tag string>\x00<tag value>\x00<32 bytes id>'
+#      (a tag value longer than 256 bytes is replaced by b'\x00sha256\x00' + its sha256 digest)
 
 DONE = object()
 
@@ -293,8 +295,15 @@ class TagIndex(Index):
     prefix = b"\x09"
     cardinality = 100
 
+    # LMDB keys are limited to 511 bytes
+    max_value_length = 256
+
     def to_key(self, value: tuple[str, str]) -> bytes:
-        return b"%s%s\x00%s" % (self.prefix, value[0].encode(), value[1].encode())
+        tagvalue = value[1].encode()
+        if len(tagvalue) > self.max_value_length:
+            # index (and look up) a long value by its digest
+            tagvalue = b"\x00sha256\x00" + sha256(tagvalue).digest()
+        return b"%s%s\x00%s" % (self.prefix, value[0].encode(), tagvalue)
 
     def convert(self, event: Event):
         for tag in event.tags:
